@@ -2468,6 +2468,7 @@ static void Produce_Code(void) {
             Found = True;
             if (Memo("MACRO")) {
                 ReadMacro();
+                ResetLastLabel = False;
             } else {
                 Found = False;
             }
@@ -2486,6 +2487,7 @@ static void Produce_Code(void) {
             Found = True;
             if (Memo(ShiftIsOccupied ? "SHFT" : "SHIFT")) {
                 ExpandSHIFT();
+                ResetLastLabel = False;
             } else {
                 Found = False;
             }
@@ -2495,6 +2497,7 @@ static void Produce_Code(void) {
             Found = True;
             if (Memo("INCLUDE")) {
                 ExpandINCLUDE();
+                ResetLastLabel = False;
             } else {
                 Found = False;
             }
